@@ -8,6 +8,7 @@ def explore(run, lean):
     ldseq_corr.explore(run, 600 if quick else 10000)
     # "one wake-up token per pending event when idle" also has to survive posters racing the consumer
     conc_corr.explore(run, "C16", 40 if quick else 1000, escalate=bool(lean.get("broken")))
+    conc_corr.explore_clear_race(run, 40 if quick else 1000)
     run.extra["rule"] = ("(a) random queued charts whose handlers post/defer/recall, capacities 1-4 and 500, scripts of 3-14 client ops; "
                          "(b) random single-thread operation sequences (append, appendleft, pop, popleft, clear, len) on a real "
                          "LockingDeque at capacities 1-5 and 500, biased to full queues; every operation compared with the Lean "
